@@ -12,7 +12,7 @@ ASSUMPTIONS = ["before/after comparison uses only the library's accessors and wi
 NSHARDS = {"quick": 32, "thorough": 64}
 BUDGET_S = {"quick": 200, "thorough": 1800}
 MIN_HITS = {
-    'quick': {"tx": 876, "coinbase_tx": 136, "ext_satoshis": 1148, "ext_locking": 1031, "sat_2^64-1": 72, "txin": 1909, "conditional": 1284, "empty_pushdata": 472},
+    'quick': {"tx": 1029, "coinbase_tx": 136, "ext_satoshis": 1320, "ext_locking": 1181, "sat_2^64-1": 81, "txin": 1894, "conditional": 1500, "empty_pushdata": 547},
     'thorough': {"tx": 115200, "coinbase_tx": 17504, "ext_satoshis": 154718, "ext_locking": 135599, "sat_2^64-1": 10357, "txin": 276223, "conditional": 181473, "empty_pushdata": 65158},
 }
 SATS = [0, 1, 2**53, 2**53 + 1, 2**63 - 1, 2**63, 2**64 - 2, 2**64 - 1, 0x0102030405060708]
